@@ -113,10 +113,23 @@ func main() {
 		}
 		ruleIDs = spec.Rules
 	}
-	for _, id := range ruleIDs {
-		if rules[id] == nil {
-			fatal("unknown rule %q", id)
+	var notBuilt []string
+	{
+		var have []string
+		for _, id := range ruleIDs {
+			if rules[id] == nil {
+				if *only != "" {
+					fatal("unknown rule %q", id)
+				}
+				notBuilt = append(notBuilt, id)
+				continue
+			}
+			have = append(have, id)
 		}
+		ruleIDs = have
+	}
+	if len(ruleIDs) == 0 {
+		fatal("property %s has no built rule", spec.ID)
 	}
 
 	start := time.Now()
@@ -227,6 +240,10 @@ func main() {
 		"analysed":            map[string]interface{}{"packages": len(p.Pkgs), "functions": len(p.Funcs), "ssa_instructions": p.nInstr, "repo": *repo},
 		"per_rule":            perRule,
 		"known_findings":      knownPrinted,
+	}
+	if len(notBuilt) > 0 {
+		cov["rules_listed_but_not_built"] = notBuilt
+		cov["explanation"] = cov["explanation"].(string) + " NOTE: rules " + strings.Join(notBuilt, ",") + " named above are not built yet and did not run; the clauses resting only on them are not decided by this run."
 	}
 	if *tier == "thorough" && *only == "" {
 		cov["variants"] = runVariants(spec, *repo, *verif)
